@@ -146,7 +146,7 @@ enum Scope {
     NoStd,
 }
 
-const SHADOW: &str = "#[allow(dead_code)] pub struct Option; #[allow(dead_code)] pub struct Some; #[allow(dead_code)] pub struct None; #[allow(dead_code)] pub struct Ok; #[allow(dead_code)] pub struct Err;\npub trait Eq {} pub trait Fn {} pub trait Clone {} pub trait Default {} pub trait PartialEq {} pub trait Ord {} pub trait PartialOrd {} pub trait Hash {} pub trait Debug {} pub trait Copy {} pub trait Sized {} pub trait Into {} pub trait From {} pub trait Iterator {} pub trait Drop {} pub trait Send {} pub trait Sync {} pub trait FnMut {} pub trait FnOnce {} pub trait ToOwned {}\n#[allow(dead_code)] pub struct Ordering; #[allow(dead_code)] pub struct Result; #[allow(dead_code)] pub struct Vec; #[allow(dead_code)] pub struct Box; #[allow(dead_code)] pub struct String; #[allow(dead_code)] pub struct Formatter; #[allow(dead_code)] pub struct Hasher;\n#[allow(dead_code)] pub fn drop() {} #[allow(dead_code)] pub fn unreachable() {}\n";
+const SHADOW: &str = "#[allow(dead_code)] pub struct Option; #[allow(dead_code)] pub struct Some; #[allow(dead_code)] pub struct None; #[allow(dead_code)] pub struct Ok; #[allow(dead_code)] pub struct Err;\npub trait Eq {} pub trait Fn {} pub trait Clone {} pub trait Default {} pub trait PartialEq {} pub trait Ord {} pub trait PartialOrd {} pub trait Hash {} pub trait Debug {} pub trait Copy {} pub trait Sized {} pub trait Into {} pub trait From {} pub trait Iterator {} pub trait Drop {} pub trait Send {} pub trait Sync {} pub trait FnMut {} pub trait FnOnce {} pub trait ToOwned {}\n#[allow(dead_code)] pub struct Ordering; #[allow(dead_code)] pub struct Result; #[allow(dead_code)] pub struct Vec; #[allow(dead_code)] pub struct Box; #[allow(dead_code)] pub struct String; #[allow(dead_code)] pub struct Formatter; #[allow(dead_code)] pub struct Hasher;\n#[allow(dead_code)] pub fn drop() {} #[allow(dead_code)] pub fn unreachable() {}\n#[allow(unused_macros)] macro_rules! unreachable { (reason $l:literal) => { loop {} }; }\n#[allow(unused_macros)] macro_rules! unimplemented { (reason $l:literal) => { loop {} }; }\n#[allow(unused_macros)] macro_rules! todo { (reason $l:literal) => { loop {} }; }\n#[allow(unused_macros)] macro_rules! matches { (reason $l:literal) => { false }; }\n#[allow(unused_macros)] macro_rules! debug_assert { (reason $l:literal) => { () }; }\n#[allow(unused_macros)] macro_rules! stringify { (reason $l:literal) => { \"\" }; }\n";
 
 #[derive(Clone, Debug)]
 struct Case {
